@@ -108,11 +108,34 @@ func build(race bool) string {
 		args = append(args, "-race")
 	}
 	tmp := filepath.Join(binDir, fmt.Sprintf(".%s.%d", name, os.Getpid()))
-	args = append(args, "-o", tmp, "./props")
-	cmd := exec.Command("go", args...)
-	cmd.Dir = verifDir
-	cmd.Env = goEnv()
-	out, err := cmd.CombinedOutput()
+	ov := overlayFile()
+	if ov != "" {
+		defer os.Remove(ov)
+	}
+	run := func(withOverlay bool) ([]byte, error) {
+		a := append([]string{}, args...)
+		env := goEnv()
+		if withOverlay {
+			a = append(a, "-overlay", ov)
+			env = append(env, "GODEBUG=goindex=0")
+		}
+		a = append(a, "-o", tmp, "./props")
+		cmd := exec.Command("go", a...)
+		cmd.Dir = verifDir
+		cmd.Env = env
+		return cmd.CombinedOutput()
+	}
+	var out []byte
+	var err error
+	if ov != "" {
+		out, err = run(true)
+	}
+	if ov == "" || err != nil {
+		if ov != "" {
+			fmt.Printf("note: build with the schema-library overlay failed, building without it (fault attribution falls back to the message)\n")
+		}
+		out, err = run(false)
+	}
 	if err != nil {
 		os.Remove(tmp)
 		fatal2("build of the check failed (the library or the harness does not compile):\n%s", out)
@@ -122,6 +145,35 @@ func build(race bool) string {
 		fatal2("rename: %v", err)
 	}
 	return final
+}
+
+// overlayFile writes the -overlay description that replaces the schema
+// library's two panic-to-error converters by the logging copies in overlay/.
+func overlayFile() string {
+	cmd := exec.Command("go", "list", "-m", "-f", "{{.Dir}}", "github.com/jsightapi/jsight-schema-go-library")
+	cmd.Dir = verifDir
+	cmd.Env = goEnv()
+	out, err := cmd.Output()
+	dir := strings.TrimSpace(string(out))
+	if err != nil || dir == "" {
+		return ""
+	}
+	repl := map[string]string{}
+	for src, dst := range map[string]string{
+		"internal/panics/panics.go":             "overlay/panics.go",
+		"internal/lexeme/lexeme_event_error.go": "overlay/lexeme_event_error.go",
+	} {
+		if _, err := os.Stat(filepath.Join(dir, src)); err != nil {
+			return ""
+		}
+		repl[filepath.Join(dir, src)] = filepath.Join(verifDir, dst)
+	}
+	b, _ := json.Marshal(map[string]any{"Replace": repl})
+	p := filepath.Join(binDir, fmt.Sprintf("overlay.%d.json", os.Getpid()))
+	if os.WriteFile(p, b, 0o644) != nil {
+		return ""
+	}
+	return p
 }
 
 type shardRun struct {
@@ -577,6 +629,17 @@ func run(bin, prop, tier string, seed int64, replay string, nshards int, race bo
 		}
 	}
 	sort.Strings(knownLines)
+	if os.Getenv("VERIF_TRIAGE") != "" {
+		for k, n := range merged.KnownHits {
+			if strings.HasPrefix(k, "TRIAGE ") {
+				b, _ := json.Marshal(merged.KnownSamples[k])
+				if len(b) > 1500 {
+					b = b[:1500]
+				}
+				fmt.Printf("%s x%d\n   %s\n", k, n, b)
+			}
+		}
+	}
 
 	level := merged.Level
 	if level == "" {
